@@ -1,9 +1,6 @@
-from xeng import progs2, driver
-from . import _x
+from xeng import progs2
+from . import _common
 
 
 def run(out):
-    out.level = 'model_checking'
-    corpus = progs2.c05_corpus(out.tier, out.seed)
-    st = driver.run_corpus(out, corpus, f'x_c05_{out.tier}')
-    _x.merge_x(out, st, corpus)
+    _common.run(out, 'C05', x_corpora=[(progs2.c05_corpus, 'c05')], s_props=['C05'])
